@@ -42,8 +42,56 @@ def evaluate(expr):
         raise ValueError(expr)
     return int(eval(e, {"__builtins__": {}}))
 
+def resolve(expr, src):
+    """a literal expression, or a named constant of the same file (`const NAME: T = <literal expr>;`)"""
+    e = expr.strip()
+    try:
+        return evaluate(e)
+    except ValueError:
+        pass
+    if e in ("Gas::MAX", "u64::MAX"):
+        return (1 << 64) - 1
+    m = re.fullmatch(r"(?:Self::|self::)?([A-Z][A-Z0-9_]*)", e)
+    if m:
+        d = re.search(r"const %s\s*:\s*[\w:]+\s*=\s*([^;]+);" % m.group(1), src)
+        if d:
+            return resolve(d.group(1), src)
+    raise ValueError(expr)
+
+
+def check_gas(name):
+    """the gas settings `run_program` (crates/check) gives every program: cost per op and total limit.
+    `GasLimit::UNLIMITED` is resolved through its definition in crates/vm/src/lib.rs."""
+    src = open(os.path.join(REPO, "crates/check/src/solution.rs")).read()
+    body = src[src.index("fn run_program"):]
+    if name == "checkGasCost":
+        m = re.search(r"let gas_cost = \|_: &asm::Op\| ([^;]+);", body)
+        return resolve(m.group(1), src)
+    m = re.search(r"let gas_limit = ([^;]+);", body)
+    e = " ".join(m.group(1).split())
+    vm = open(os.path.join(REPO, "crates/vm/src/lib.rs")).read()
+    unl = re.search(r"pub const UNLIMITED: Self = Self \{([^}]*)\}", vm).group(1)
+    unl_total = resolve(re.search(r"total:\s*([^,]+),", unl).group(1), vm)
+    if e == "GasLimit::UNLIMITED":
+        return unl_total
+    m2 = re.fullmatch(r"GasLimit \{(.*)\}", e)
+    if m2:
+        t = re.search(r"total:\s*([^,}]+)", m2.group(1))
+        if t:
+            return resolve(t.group(1), src)
+        if "..GasLimit::UNLIMITED" in m2.group(1):
+            return unl_total
+    raise ValueError(e)
+
+
 def main():
     vals, missing = {}, []
+    for name in ("checkGasCost", "checkGasLimit"):
+        try:
+            vals[name] = check_gas(name)
+        except Exception as ex:
+            vals[name] = 0
+            missing.append(f"{name} (crates/check/src/solution.rs run_program): {ex}")
     for name, f, rx in CONSTS:
         try:
             src = open(os.path.join(REPO, f)).read()
@@ -56,6 +104,9 @@ def main():
          "namespace Essential.Consts\n"]
     for name, _, _ in CONSTS:
         L.append(f"def {name} : Nat := {vals[name]}")
+    L.append("/-- `run_program`: gas cost of every op and the total gas limit given to each program -/")
+    L.append(f"def checkGasCost : Nat := {vals['checkGasCost']}")
+    L.append(f"def checkGasLimit : Nat := {vals['checkGasLimit']}")
     L.append("\nend Essential.Consts")
     text = "\n".join(L) + "\n"
     path = f"{ROOT}/lean/Essential/Gen/Consts.lean"
